@@ -234,6 +234,36 @@ def check_numbers(ctx, prog):
                 fmts['_fmtD'] += fmts['_fmtF']
     ctx.info['number_formats'] = fmts
     ctx.info['default_formats'] = defaults
+    # the shorter formats are selected by the SIMPLE bit of the mode and by nothing else: the flag the selection tests is
+    # evaluated for every mode value 0..63 (a mask that also matches PRETTY makes every pretty-printed or written file lossy)
+    sel = None
+    for e in fn_exprs(enc):
+        rhs_ = None
+        if e.get('k') == 'bin' and e.get('op') == '=' and strip_lv(e['x']).get('f') in fmts:
+            rhs_ = strip(e['y'])
+        elif e.get('k') == 'call' and e.get('pq') == 'asl::String::operator=' and e.get('obj') is not None and strip_lv(e['obj']).get('f') in fmts:
+            rhs_ = strip(e['a'][0])
+        while rhs_ is not None and rhs_.get('k') in ('construct', 'temp'):
+            rhs_ = strip(rhs_['a'][0]) if rhs_.get('k') == 'construct' and rhs_.get('a') else strip(rhs_.get('e') or {})
+        if rhs_ is not None and rhs_.get('k') == 'cond' and strip_lv(rhs_['c']).get('k') == 'mem':
+            sel = strip_lv(rhs_['c'])['f']
+    simple_bit = q.enum_value(prog, 'asl::Json::Mode', 'SIMPLE')
+    modes = [p_ for p_ in enc['params'] if T(enc, p_['t']).get('enum') or T(enc, p_['t']).get('int')]
+    if sel and simple_bit and modes:
+        asg = [e for e in fn_exprs(enc) if e.get('k') == 'bin' and e.get('op') == '=' and strip_lv(e['x']).get('k') == 'mem' and strip_lv(e['x']).get('f') == sel]
+        if len(asg) == 1:
+            wrong = None
+            try:
+                for m_ in range(0, 64):
+                    got = bool(bytesets.Evaluator(prog, enc, {modes[-1]['id']: m_}).ev(asg[0]['y']))
+                    ctx.evaluations += 1
+                    if got != bool(m_ & simple_bit) and wrong is None:
+                        wrong = (m_, got)
+                ctx.check(wrong is None, 'C05.numbers', enc['pq'], 'reduced precision only with the SIMPLE flag', fwhere(enc, asg[0]['l']), '`%s` is set exactly for modes with bit %d' % (sel, simple_bit),
+                          'for mode %s the flag `%s` that selects the 15 / 7 digit formats is %s although the SIMPLE bit (%d) is %s: numbers written in that mode are not recovered exactly' % (
+                              wrong[0] if wrong else '', sel, wrong[1] if wrong else '', simple_bit, 'clear' if wrong and wrong[1] else 'set'))
+            except bytesets.Undecidable as u:
+                ctx.info['simple_flag'] = 'not evaluable: %s' % u
     pd, pf = prec(defaults.get('_fmtD', '')), prec(defaults.get('_fmtF', ''))
     ctx.check(pd is not None and pd >= 17, 'C05.numbers', enc['pq'], 'default double format has >= 17 significant digits', fwhere(enc), 'default %s' % defaults.get('_fmtD'),
               'the default double format `%s` prints fewer than 17 significant digits: distinct doubles collapse to the same text and are not recovered bit for bit' % defaults.get('_fmtD'))
